@@ -93,8 +93,36 @@ def version_of_request(req_json):
     return [v // 10, v % 10]
 
 
-def session_scenarios(ctx, rng, cov):
-    """[(scenario, request description, reqver | None, response bytes)] from a real KmipSession"""
+class _Shorter(object):
+    """the context of the shorter, debug-logging pass (same seed and tier)"""
+
+    def __init__(self, c):
+        self.c = c
+
+    def __getattr__(self, k):
+        return getattr(self.c, k)
+
+
+def session_scenarios(ctx, rng, cov, debug=False):
+    """[(scenario, request description, reqver | None, response bytes)] from a real KmipSession.
+    `debug`: the same with the server's loggers at DEBUG (a configured logging_level the server offers): what a log
+    statement does to the bytes on their way out is part of what the server emits (a shorter run)"""
+    import logging
+    if debug:
+        logging.disable(logging.NOTSET)
+        klog = logging.getLogger("kmip")
+        saved_level, null = klog.level, logging.NullHandler()
+        klog.setLevel(logging.DEBUG)
+        klog.addHandler(null)
+        try:
+            sub = {}
+            res = session_scenarios(_Shorter(ctx), rng, sub, debug=None)
+            cov["session_counts_debug_logging"] = sub.get("session_counts")
+            return [("debug-logging:" + r[0],) + tuple(r[1:]) for r in res]
+        finally:
+            klog.setLevel(saved_level)
+            klog.removeHandler(null)
+            logging.disable(logging.CRITICAL)
     import gen_engine
     import impl_engine
     rig = IC.SessionRig()
@@ -106,7 +134,7 @@ def session_scenarios(ctx, rng, cov):
 
     try:
         alice = IC.make_cert(("alice",), "client")
-        n_req = 220 if ctx.tier == "quick" else 3000
+        n_req = (220 if ctx.tier == "quick" else 3000) // (5 if debug is None else 1)
         g = gen_engine.Gen(ctx.seed * 131 + 9)
         reqs = []
         for i in range(n_req):
@@ -179,7 +207,7 @@ def session_scenarios(ctx, rng, cov):
                 res.append(("oversize", ",".join(it["op"] for it in rq2["items"])[:60], version_of_request(rq2), o, b2))
         # 3. malformed requests: one per connection, followed by a good one
         follow = good[0][1] if good else b""
-        nbad = 60 if ctx.tier == "quick" else 1500
+        nbad = (60 if ctx.tier == "quick" else 1500) // (5 if debug is None else 1)
         for (rq, b) in (good * (nbad // max(1, len(good)) + 1))[:nbad]:
             kind = rng.choice(["flip", "flip", "trunc-inner", "garbage", "tag", "type", "length-inner", "empty-struct"])
             mb = bytearray(b)
@@ -350,6 +378,7 @@ def run(ctx):
     cov["struct_encodings"] = len(srun.emitted)
     t1 = time.time()
     sess = session_scenarios(ctx, rng, cov)
+    sess += session_scenarios(ctx, random.Random(ctx.seed * 31 + 77), cov, debug=True)
     cov["session_responses"] = len(sess)
     cov["session_wall_s"] = round(time.time() - t1, 1)
     sc = {}
@@ -529,6 +558,7 @@ def search(ctx, broken):
     rng = random.Random(ctx.seed * 104729 + 5)
     cov = {}
     sess = session_scenarios(ctx, rng, cov)
+    sess += session_scenarios(ctx, random.Random(ctx.seed * 31 + 77), cov, debug=True)
     for (scn, desc, reqver, o, reqb) in sess:
         for f in py_envelope_faults(o, reqver):
             ctx.report("c02:envelope:%s" % f, "scenario %s: %s" % (scn, f),
